@@ -70,6 +70,8 @@ def modules():
     """[(group name, module)] of every row module that exists."""
     import importlib
     out = []
+    # rows_sys (MSR/MRS/CPS/SVC/hints/coprocessor ...) is exercised by C12 with its own generator: its rows mostly change
+    # mode, take exceptions or have no reference semantics, and the generic instance builder below does not fit them
     for name in ("rows_dp", "rows_media", "rows_ldst", "rows_block", "rows_branch"):
         try:
             out.append((name, importlib.import_module("armmc.ref." + name)))
@@ -743,8 +745,8 @@ def model_only(row, f, word, it, nzcv, ver):
         ops = row.operands(f, ctx)
         row.sem(st, ops, f)
         st.finish()
-    except ModelStop:
-        return "stop"
+    except ModelStop as ms:
+        return None if ms.kind == "notimpl" else "stop"
     except Unpredictable:
         return None
     return st
@@ -783,6 +785,10 @@ def run_b(res, agg, modname, k0, k1, tier):
     tab = table(modname, mod)
     for row in mod.ROWS[k0:k1]:
         excl = row.cls.startswith("Strex")
+        if row.operands is None or row.sem is None or row.notimpl:
+            res.count("b_rows_without_reference_semantics")
+            res.count("b_no_semantics:" + row.cls)
+            continue
         inst, wrote_pc = find_instance(res, row, tab, 7)
         if inst is None:
             wrote_pc = wrote_pc or row.cls in EXCEPTION_RETURNS
